@@ -1,0 +1,55 @@
+//! Schedule-point hooks. Call sites are `#[cfg(rzmq_verif)]` lines between individual
+//! queue/counter steps; when no hooks are installed every function is a no-op.
+
+use std::future::Future;
+use std::pin::Pin;
+use std::sync::atomic::{AtomicPtr, Ordering};
+
+pub type GateFuture = Pin<Box<dyn Future<Output = ()> + Send>>;
+
+pub struct Hooks {
+  /// A point between two atomic steps at which the scheduler may switch tasks.
+  pub point: fn(&'static str),
+  /// Inside a busy-wait/retry loop: the scheduler must run somebody else.
+  pub spin: fn(&'static str),
+  /// Async check-then-act window; `None` = do not wait.
+  pub gate: fn(&'static str) -> Option<GateFuture>,
+}
+
+static HOOKS: AtomicPtr<Hooks> = AtomicPtr::new(std::ptr::null_mut());
+
+pub fn install(hooks: &'static Hooks) {
+  HOOKS.store(hooks as *const Hooks as *mut Hooks, Ordering::Release);
+}
+
+#[inline]
+fn get() -> Option<&'static Hooks> {
+  let p = HOOKS.load(Ordering::Acquire);
+  if p.is_null() {
+    None
+  } else {
+    Some(unsafe { &*p })
+  }
+}
+
+#[inline]
+pub fn point(label: &'static str) {
+  if let Some(h) = get() {
+    (h.point)(label)
+  }
+}
+
+#[inline]
+pub fn spin(label: &'static str) {
+  if let Some(h) = get() {
+    (h.spin)(label)
+  }
+}
+
+pub async fn gate(label: &'static str) {
+  if let Some(h) = get() {
+    if let Some(f) = (h.gate)(label) {
+      f.await
+    }
+  }
+}
